@@ -38,9 +38,10 @@ VARIABLES backend, shape,
           lenCm,    \* len(proof.Commitments) / len(proof.Bsb22Commitments)
           lenCV,    \* len(proof.BatchedProof.ClaimedValues)  (plonk; 0 for groth16)
           via,      \* "object" | "bin" | "raw": proof object handed over directly or through an encoding
+          fill,     \* what surplus commitments are: "dup" (copy of a genuine element) | "inf" (point at infinity)
           pc, outcome, i   \* step machine: program counter, result, loop index
 
-vars == <<backend, shape, lenPub, lenCm, lenCV, via, pc, outcome, i>>
+vars == <<backend, shape, lenPub, lenCm, lenCV, via, fill, pc, outcome, i>>
 
 S == ShapeDef[shape]
 
@@ -51,10 +52,11 @@ Init ==
   /\ lenCm \in 0..MaxLen
   /\ lenCV \in (IF backend = "plonk" THEN 0..(6 + MaxLen) ELSE {0})
   /\ via \in {"object", "bin", "raw"}
+  /\ fill \in (IF lenCm > ShapeDef[shape].nbCommit THEN {"dup", "inf"} ELSE {"dup"})
   /\ pc = "start" /\ outcome = "running" /\ i = 1
 
-Goto(l) == pc' = l /\ UNCHANGED <<backend, shape, lenPub, lenCm, lenCV, via, outcome, i>>
-End(o) == pc' = "done" /\ outcome' = o /\ UNCHANGED <<backend, shape, lenPub, lenCm, lenCV, via, i>>
+Goto(l) == pc' = l /\ UNCHANGED <<backend, shape, lenPub, lenCm, lenCV, via, fill, outcome, i>>
+End(o) == pc' = "done" /\ outcome' = o /\ UNCHANGED <<backend, shape, lenPub, lenCm, lenCV, via, fill, i>>
 
 (* ---- Groth16 verify.go -------------------------------------------------- *)
 G16 ==
@@ -62,11 +64,11 @@ G16 ==
   /\ \/ pc = "start" /\ (IF lenPub # S.nbPub THEN End("error:witness-size") ELSE Goto("g-count"))
      \/ pc = "g-count" /\ (IF G16CountGuard /\ lenCm # S.nbCommit THEN End("error:nb-commitments") ELSE Goto("g-subgroup"))
      \/ pc = "g-subgroup" /\ pc' = "g-hash" /\ i' = 1
-                          /\ UNCHANGED <<backend, shape, lenPub, lenCm, lenCV, via, outcome>>
+                          /\ UNCHANGED <<backend, shape, lenPub, lenCm, lenCV, via, fill, outcome>>
      \* for i := range vk.PublicAndCommitmentCommitted { proof.Commitments[i] ... publicWitness = append(..) }
      \/ pc = "g-hash" /\ (IF i > S.nbCommit THEN Goto("g-pok")
                            ELSE IF i > lenCm THEN End("panic:Commitments[i]")
-                           ELSE /\ i' = i + 1 /\ UNCHANGED <<backend, shape, lenPub, lenCm, lenCV, via, pc, outcome>>)
+                           ELSE /\ i' = i + 1 /\ UNCHANGED <<backend, shape, lenPub, lenCm, lenCV, via, fill, pc, outcome>>)
      \* pedersen.BatchVerifyMultiVk returns an error on a length mismatch; skipped when the key has no commitment
      \/ pc = "g-pok" /\ (IF S.nbCommit > 0 /\ lenCm # S.nbCommit THEN End("error:pok") ELSE Goto("g-pairing"))
      \* kSum folds every proof commitment; MultiExp lengths are those of the key
@@ -79,11 +81,11 @@ Plonk ==
      \/ pc = "p-wit" /\ (IF lenPub # S.nbPub THEN End("error:witness-size") ELSE Goto("p-cv"))
      \/ pc = "p-cv" /\ (IF PlonkCVGuard /\ lenCV # 6 + S.nbCommit THEN End("error:claimed-values") ELSE Goto("p-subgroup"))
      \/ pc = "p-subgroup" /\ pc' = "p-pi" /\ i' = 1
-                          /\ UNCHANGED <<backend, shape, lenPub, lenCm, lenCV, via, outcome>>
+                          /\ UNCHANGED <<backend, shape, lenPub, lenCm, lenCV, via, fill, outcome>>
      \* for i := range vk.CommitmentConstraintIndexes { proof.Bsb22Commitments[i] }
      \/ pc = "p-pi" /\ (IF i > S.nbCommit THEN Goto("p-claimed")
                          ELSE IF i > lenCm THEN End("panic:Bsb22Commitments[i]")
-                         ELSE /\ i' = i + 1 /\ UNCHANGED <<backend, shape, lenPub, lenCm, lenCV, via, pc, outcome>>)
+                         ELSE /\ i' = i + 1 /\ UNCHANGED <<backend, shape, lenPub, lenCm, lenCV, via, fill, pc, outcome>>)
      \* ClaimedValues[1..5], ClaimedValues[0], ClaimedValues[6:]
      \/ pc = "p-claimed" /\ (IF lenCV < 6 THEN End("panic:ClaimedValues[k]") ELSE Goto("p-fold"))
      \* kzg.FoldProof: len(digests) = 6 + len(vk.Qcp) must equal len(ClaimedValues)
@@ -101,7 +103,7 @@ Edits ==
   LET drop == IF backend = "groth16" THEN "CommitDrop" ELSE "BsbDrop"
       app  == IF backend = "groth16" THEN "CommitAppend" ELSE "BsbAppend"
       cm == IF lenCm < S.nbCommit THEN Rep([op |-> drop, i |-> 1], S.nbCommit - lenCm)
-            ELSE Rep([op |-> app, cls |-> "dup"], lenCm - S.nbCommit)
+            ELSE Rep([op |-> app, cls |-> fill], lenCm - S.nbCommit)
       cvs == IF backend # "plonk" THEN <<>>
              ELSE IF lenCV < 6 + S.nbCommit THEN <<[op |-> "TruncCV", i |-> lenCV]>>
              ELSE Rep([op |-> "ExtendCV", cls |-> "five"], lenCV - (6 + S.nbCommit))
@@ -120,7 +122,7 @@ Finish ==
   /\ pc = "done"
   /\ pc' = "emitted"
   /\ IF Emit THEN PrintT("BEH" \o ToJson(Behaviour)) ELSE TRUE
-  /\ UNCHANGED <<backend, shape, lenPub, lenCm, lenCV, via, outcome, i>>
+  /\ UNCHANGED <<backend, shape, lenPub, lenCm, lenCV, via, fill, outcome, i>>
 
 Next == G16 \/ Plonk \/ Finish
 
